@@ -292,3 +292,58 @@ func firstLine(s string) string {
 	}
 	return s
 }
+
+// byzSign lets a Byzantine validator submit signatures that must never be stored with a message (C06): by a key that is
+// not the one it registered for the chain, over other bytes, in another validator's name, with the key it registered for
+// ANOTHER chain, or twice.
+func (w *JobWorld) byzSign(vi int) {
+	t := w.T
+	p := w.Pigeons[vi]
+	if p.Down {
+		return
+	}
+	chain := w.Order[t.Intn(len(w.Order))]
+	q := queueName(chain)
+	res, err := w.N.App.ConsensusKeeper.QueuedMessagesForSigning(w.Ctx(), &consensustypes.QueryQueuedMessagesForSigningRequest{ValAddress: p.V.Acct.ValAddr(), QueueTypeName: q})
+	if err != nil || len(res.MessageToSign) == 0 {
+		return
+	}
+	m := res.MessageToSign[t.Intn(len(res.MessageToSign))]
+	own := p.V.Eth[chain]
+	stray := world.NewEthKey(w.R.Seed, fmt.Sprintf("stray-sig-%d-%d", vi, w.N.Height))
+	other := w.Vals[(vi+1)%len(w.Vals)].Eth[chain]
+	sig := func(k *world.EthKey, bz []byte, as common.Address) *consensustypes.ConsensusMessageSignature {
+		return &consensustypes.ConsensusMessageSignature{Id: m.Id, QueueTypeName: q, Signature: k.SignEthMessage(bz), SignedByAddress: as.Hex()}
+	}
+	var sigs []*consensustypes.ConsensusMessageSignature
+	kind := ""
+	switch t.Intn(6) {
+	case 0:
+		sigs, kind = append(sigs, sig(stray, m.BytesToSign, own.Addr)), "stray key, registered address claimed"
+	case 1:
+		wrong := append([]byte(nil), m.BytesToSign...)
+		wrong[5] ^= 0x20
+		sigs, kind = append(sigs, sig(own, wrong, own.Addr)), "own key over other bytes"
+	case 2:
+		sigs, kind = append(sigs, sig(stray, m.BytesToSign, stray.Addr)), "unregistered key, honestly declared"
+	case 3:
+		sigs, kind = append(sigs, sig(own, m.BytesToSign, other.Addr)), "own signature under another validator's address"
+	case 4:
+		if len(w.Order) < 2 {
+			return
+		}
+		for _, c := range w.Order {
+			if c != chain {
+				k := p.V.Eth[c]
+				sigs, kind = append(sigs, sig(k, m.BytesToSign, k.Addr)), "key registered for another chain"
+				break
+			}
+		}
+	default:
+		sigs, kind = append(sigs, sig(own, m.BytesToSign, own.Addr), sig(own, m.BytesToSign, own.Addr)), "valid signature twice in one transaction"
+	}
+	if p.send("byz-sign", &consensustypes.MsgAddMessagesSignatures{Metadata: p.meta(), SignedMessages: sigs}) {
+		w.R.Stats.Fault("byzantine_signature")
+		w.R.Trace.Event("byz-sign", "%s msg=%d %s", p.V.Acct.Name, m.Id, kind)
+	}
+}
